@@ -70,7 +70,7 @@ for _n, (_f, _d, _x) in MU.TABLE.items():
     UNITS_BY_DIM.setdefault(_dj(_d), []).append(_n)
 
 _POS_RATS = ["1", "2", "3", "5", "7", "12", "1/2", "3/2", "2/3", "5/4", "7/10", "1/10", "100"]
-_FLOATS = ["0.5", "1.5", "2.25", "0.125", "3.0", "10.0", "0.1", "2.3", "1000.0", "4.4e4", "5e-3", "1.1"]
+_FLOATS = ["0.5", "1.5", "2.25", "0.125", "3.0", "10.0", "0.1", "2.3", "1000.0", "4.4e4", "5e-3", "1.1", "1.6e-19", "6.0e23", "9.1e-31"]
 _EXPONENTS = ["2", "2", "3", "-1", "-1", "-2", "1/2", "1/2", "3/2", "-1/2", "1/3", "0"]
 _PREFIX_NAMES = list(MU.PREFIXES)
 _WILD_TERM = ["z", "z", "zf", "inf", "ninf", "nan"]
